@@ -833,6 +833,29 @@ M2('c02-walrus-match-not-tested', 'C02', 'R1', [
 # resp.set_headers({'Allow': allowed, 'Content-Length': '0'}); `_OPTIONS = 'OPTIONS'` used in the test / store / append;
 # `for entry in table: matcher, obj, is_sink = entry`; `if m := matcher.match(path):`
 
+
+# wave k3, third round of pre-emptive rewrites (refactoring + break)
+# HTTPMethodNotAllowed(allowed_methods=...) keyword spelling + an empty list
+M2('c02-405-keyword-empty-list', 'C02', 'R4', [
+    {'file': 'falcon/responders.py',
+     'old': '    def method_not_allowed(req: Request, resp: Response, **kwargs: Any) -> NoReturn:\n        raise HTTPMethodNotAllowed(allowed_methods)\n',
+     'new': '    def method_not_allowed(req: Request, resp: Response, **kwargs: Any) -> NoReturn:\n        raise HTTPMethodNotAllowed(allowed_methods=[])\n'},
+])
+# keyword spelling + the list handed to another parameter
+M2('c02-405-keyword-other-parameter', 'C02', 'R4', [
+    {'file': 'falcon/responders.py',
+     'old': '    def method_not_allowed(req: Request, resp: Response, **kwargs: Any) -> NoReturn:\n        raise HTTPMethodNotAllowed(allowed_methods)\n',
+     'new': '    def method_not_allowed(req: Request, resp: Response, **kwargs: Any) -> NoReturn:\n        raise HTTPMethodNotAllowed(title=allowed_methods)\n'},
+])
+# `error = HTTPMethodNotAllowed(..); raise error` inside the closure + built from something else
+M2('c02-405-error-local-wrong-list', 'C02', 'R4', [
+    {'file': 'falcon/responders.py',
+     'old': '    def method_not_allowed(req: Request, resp: Response, **kwargs: Any) -> NoReturn:\n        raise HTTPMethodNotAllowed(allowed_methods)\n',
+     'new': '    def method_not_allowed(req: Request, resp: Response, **kwargs: Any) -> NoReturn:\n        error = HTTPMethodNotAllowed(list(kwargs))\n        raise error\n'},
+])
+# negative controls (exit 0): raise HTTPMethodNotAllowed(allowed_methods=allowed_methods); `error = HTTPMethodNotAllowed(allowed_methods); raise error`
+# in the closure; `create = responders.create_method_not_allowed; create(allowed_methods, asgi=asgi)`
+
 # C02 R4 (r4_allow) is also registered as C20 R6 (the preflight copies the same Allow value into
 # Access-Control-Allow-Methods): every R4 operator legitimately fires there too.
 from .mutants import MUTANTS as _ALL   # noqa: E402
